@@ -24,6 +24,7 @@ def is_errno_read(fn, nid):
 
 
 def errno_rule(ctx, rid):
+    ctx.mark('errno', rid)
     ctx.rule(rid, 'every read of errno after a strto* call is preceded, on every path, by an assignment errno = 0 that '
              'lies before that strto* call with no intervening C library / repository call that may set errno; '
              'otherwise an ERANGE left by an earlier operation makes a valid input fail', minimum=4,
